@@ -47,6 +47,9 @@ pub enum Mode {
     Run,
     /// Interface::run with a heapless::Vec<u8, CAP> writer
     RunCap(usize),
+    /// the messages of the stream handed to Interface::run one at a time (same device, a fresh writer per message);
+    /// reference of the second sentence of C07. Invalid (nothing compared) when a message is left partly unconsumed.
+    RunEach(usize),
     /// Interface::process::<N> with the input delivered as these reads; `yields`: suspensions per adapter call;
     /// `fail_at`: index of the adapter call that returns an error
     Process { n: usize, cuts: Vec<usize>, yields: usize, fail_at: Option<usize> },
@@ -121,6 +124,20 @@ pub fn run_real(sc: &Scenario) -> RealObs {
                 o.out_std = Some(v); o.log_std = Some(d2.log.borrow().clone());
                 if rest2 != rest { o.log_std = Some(vec![REv::Call(format!("<rest {rest2} != {rest}>"))]); }
             },
+            Mode::RunEach(cap) => {
+                // an unbounded writer; the relation is claimed only when every message and every message's response
+                // fit in N bytes (process uses an N byte response buffer), otherwise the reference is marked invalid
+                let mut d = Dev::new();
+                let mut ok = true;
+                for m in sc.input.split_inclusive(|b| *b == b'\n') {
+                    let mut w = LogWriter { out: vec![], flushes: vec![] };
+                    let rest = block_on(d.run(m, &mut w)).len();
+                    if rest != 0 || m.last() != Some(&b'\n') || w.out.len() > *cap || m.len() > *cap { ok = false; }
+                    if !w.out.is_empty() { o.trace.push(TEv::Write(w.out)); }
+                }
+                o.log = d.log.borrow().clone();
+                o.rest = Some(if ok { 0 } else { 1 });
+            },
             Mode::RunCap(cap) => {
                 let mut d = Dev::new();
                 macro_rules! go { ($k:literal) => {{ let mut w: heapless::Vec<u8, $k> = heapless::Vec::new(); let rest = block_on(d.run(&sc.input, &mut w)).len(); (w.to_vec(), rest) }} }
@@ -159,7 +176,7 @@ pub fn cmp_log(real: &[REv], exp: &[OEv], calls_only: bool, prefix_ok: bool, dif
                 return;
             },
             (Some(REv::Err(c)), Some(OEv::Err(x))) => if !exp_ok(x, *c) { diffs.push(Diff { kind: "error", detail: format!("event {i}: error {c} reported, expected {x:?}") }); return; },
-            (Some(a), Some(b)) => { diffs.push(Diff { kind: if matches!(a, REv::Call(_)) { "handler" } else { "error" }, detail: format!("event {i}: {a:?} instead of {b:?}") }); return; },
+            (Some(a), Some(b)) => { diffs.push(Diff { kind: if matches!(a, REv::Call(_)) || matches!(b, OEv::Call(_)) { "handler" } else { "error" }, detail: format!("event {i}: {a:?} instead of {b:?}") }); return; },
             (Some(a), None) => { diffs.push(Diff { kind: if matches!(a, REv::Call(_)) { "handler" } else { "error" }, detail: format!("event {i}: unexpected {a:?} (expected nothing more)") }); return; },
             (None, Some(b)) => { if !prefix_ok { diffs.push(Diff { kind: if matches!(b, OEv::Call(_)) { "handler" } else { "error" }, detail: format!("event {i}: missing {b:?}") }); } return; },
             (None, None) => {},
@@ -223,6 +240,7 @@ pub fn check(t: &OTree, sc: &Scenario) -> (RealObs, Vec<Diff>, String) {
         let rb = run_real(b);
         exp_txt = format!("same as {}: log {:?} out {:?} rest {:?} writes {:?}", sc_json(b), rb.log, String::from_utf8_lossy(&rb.out), rb.rest, writes_of(&rb.trace));
         if let Some(p) = &rb.panic { diffs.push(Diff { kind: "panic", detail: format!("the library panicked on the reference input: {p}") }); return (real, diffs, exp_txt); }
+        if matches!(b.mode, Mode::RunEach(_)) && rb.rest != Some(0) { return (real, diffs, exp_txt); }   // precondition of the relation not met
         for i in 0..real.log.len().max(rb.log.len()) {
             match (real.log.get(i), rb.log.get(i)) {
                 (Some(a), Some(b)) if a == b => {},
@@ -238,11 +256,12 @@ pub fn check(t: &OTree, sc: &Scenario) -> (RealObs, Vec<Diff>, String) {
             }
         }
         if real.out != rb.out { diffs.push(Diff { kind: "response", detail: format!("response {:?} instead of {:?}", String::from_utf8_lossy(&real.out), String::from_utf8_lossy(&rb.out)) }); }
-        if writes_of(&real.trace) != writes_of(&rb.trace) { diffs.push(Diff { kind: "response", detail: format!("writes {:?} instead of {:?}", writes_of(&real.trace), writes_of(&rb.trace)) }); }
+        if writes_of(&real.trace).concat() != writes_of(&rb.trace).concat() { diffs.push(Diff { kind: "response", detail: format!("writes {:?} instead of {:?}", writes_of(&real.trace), writes_of(&rb.trace)) }); }
         if matches!(sc.mode, Mode::Run) && (real.rest == Some(0)) != (rb.rest == Some(0)) { diffs.push(Diff { kind: "rest", detail: format!("{:?} bytes left unconsumed, reference {:?}", real.rest, rb.rest) }); }
         return (real, diffs, exp_txt);
     }
     match &sc.mode {
+        Mode::RunEach(_) => {},
         Mode::Run | Mode::RunCap(_) => {
             let mut st = RunSt::new(if let Mode::RunCap(c) = sc.mode { Some(c) } else { None });
             let rest = oracle::spec_run(t, 0, 0, &sc.input, &mut st);
@@ -256,6 +275,9 @@ pub fn check(t: &OTree, sc: &Scenario) -> (RealObs, Vec<Diff>, String) {
                 return (real, diffs, exp_txt);
             }
             cmp_log(&real.log, &st.log, false, false, &mut diffs);
+            // the expected output is that of the expected calls: when a different handler ran or it received different
+            // values, the response is not comparable (and is another property's business)
+            if diffs.iter().any(|d| d.kind == "handler" || d.kind == "args") { return (real, diffs, exp_txt); }
             let fl = cmp_out(&real.out, &st.out, &mut diffs);
             if matches!(sc.mode, Mode::Run) && diffs.is_empty() {
                 if fl != real.flushes { diffs.push(Diff { kind: "flush", detail: format!("writer flushed at offsets {:?}, expected after every response: {:?}", real.flushes, fl) }); }
@@ -344,6 +366,7 @@ fn unhex(s: &str) -> Vec<u8> { (0..s.len() / 2).map(|i| u8::from_str_radix(&s[2 
 pub fn sc_json(sc: &Scenario) -> String {
     let mode = match &sc.mode {
         Mode::Run => "\"mode\":\"run\"".to_string(),
+        Mode::RunEach(c) => format!("\"mode\":\"runeach\",\"cap\":{c}"),
         Mode::RunCap(c) => format!("\"mode\":\"runcap\",\"cap\":{c}"),
         Mode::Process { n, cuts, yields, fail_at } => format!("\"mode\":\"process\",\"n\":{n},\"cuts\":{cuts:?},\"yields\":{yields},\"fail_at\":{}", fail_at.map(|x| x.to_string()).unwrap_or("null".into())),
     };
@@ -363,6 +386,7 @@ fn sc_parse(s0: &str) -> Scenario {
     let input = unhex(&field("input_hex").expect("input_hex"));
     let mode = match field("mode").as_deref() {
         Some("run") => Mode::Run,
+        Some("runeach") => Mode::RunEach(field("cap").unwrap().parse().unwrap()),
         Some("runcap") => Mode::RunCap(field("cap").unwrap().parse().unwrap()),
         Some("process") => Mode::Process {
             n: field("n").unwrap().parse().unwrap(),
